@@ -59,6 +59,13 @@ func checkRelation(rc *RunCtx, ms *mainSim, cfg *mCfg, U []*Key, sigPrefix, when
 func runC09(rc *RunCtx) {
 	G := rc.G
 	U := withRotations(G, genKeys(G, 2+G.Draw(6), ""))
+	if G.Draw(3) == 0 {
+		// secrets are arbitrary strings ('$', blanks, quotes, non-ASCII ...)
+		for n := 1 + G.Draw(2); n > 0; n-- {
+			U = append(U, mkKey(fmt.Sprintf("odd-secret-%d", n), cipherNames[G.Draw(4)], oddSecrets[G.Draw(len(oddSecrets))]))
+		}
+		simrt.Probe("secret_with_blanks_or_punctuation")
+	}
 	var cfg *mCfg
 	for tries := 0; ; tries++ {
 		cfg = genCfg(G, U, nil, 4)
